@@ -2,6 +2,7 @@ import Pcore.Proofs.LoaderSeq
 import Pcore.Proofs.LoaderTS
 import Pcore.Proofs.LoaderDep
 import Pcore.Model.LoaderKey
+import Pcore.Proofs.LoaderStatic
 /-!
 # C12 — Loader resolution: parents first, bindings are write-once, misses are not sticky
 
@@ -58,9 +59,13 @@ Full statement / proved / missing
   `Child()`/`Parent()` from a name without cached key has the right key.                                            proved
   FULL statement `C12_key_derived_full` (also with a cached key) is FALSE: `C12_key_derived_wrong`,
   `C12_key_derived_fault` (known finding C12-typedname-derived-key); missing: the cached, length-preserving case.
+* the global level (`Model/LoaderStatic.lean`): `C12_define_ancestor_after_miss` — after a miss a definition in any loader
+  of the chain, the static root included, makes the name resolve to that value; `ResolveResolvables` = the definitions of
+  the declared types in order, ended by the first rejection: `C12_rr_loop`, `C12_rr_ok`, `C12_rr_queue`,
+  `C12_rr_writeonce(_run)`, `C12_rr_plain`, witness `C12_rr_drops_rest`.                                              proved
 * missing / outside the model: type-set loaders with children or references or beside dependency loaders, dependency
-  loaders over anything but plain loaders, file-based loaders (C15); names that are not valid UTF-8; the static loader
-  level (assumed disjoint from the names used, checked by the harness per line).  Tie: differential execution of whole
+  loaders over anything but plain loaders, file-based loaders (C15); names that are not valid UTF-8; the preloaded
+  contents of the static loader other than `Integer` (checked disjoint from the names used by the harness per line).  Tie: differential execution of whole
   histories (harness/c12).
 -/
 namespace Pcore.LoaderSeq
@@ -670,6 +675,112 @@ theorem C12_key_derived_fault :
     ((TN.mk' "type".toList "A::B".toList "http://\u212a.example".toList).mapKey.1).child = .fault ∧
     (TN.mk' "type".toList "A::B".toList "http://\u212a.example".toList).child =
       .ok (TN.mk' "type".toList "B".toList "http://\u212a.example".toList) := by decide +kernel
+
+/-! ### the global level (`Model/LoaderStatic.lean`): declared types, `ResolveResolvables`, the static loader as a root
+
+The static loader is a `basicLoader` without parent: in the model a root like any other, so every theorem above holds of
+it (it is node 0 of the `(stw)` lines of the harness, which run the REAL `loader.StaticLoader`).  What the global level adds
+is the process-wide list of declared types (`SysQ.queue`) and `ResolveResolvables(c)`, which defines all of them in
+`c.Loader()` — in the static loader during `InitializeRuntime`, in the environment loader or a fork afterwards. -/
+
+/-- misses are not sticky, one level up: after a failed lookup through `l`, a definition in ANY loader of its chain — the
+    static loader at the top included — makes the name resolve through `l`, to that value ("as long as no ancestor gains a
+    binding" is the only way a resolution changes) -/
+theorem C12_define_ancestor_after_miss (s : Sys) (l a : Nat) (n : Name) (v : V) (ha : n.auth = runtimeAuthority)
+    (hmem : a ∈ chain s.ps l) (hlen : a < s.es.length) (h : resolve s l (canon n) = none) :
+    (run s [.load l n, .define a n v]).2 = [.notfound, .ok] ∧
+    resolve (run s [.load l n, .define a n v]).1 l (canon n) = some v ∧
+    (step (run s [.load l n, .define a n v]).1 (.load l n)).2 = .found v := by
+  have hall : ∀ x ∈ chain s.ps l, bound s x (canon n) = none := by
+    intro x hx
+    unfold resolve at h
+    rw [List.findSome?_eq_none_iff] at h
+    exact h x (List.mem_reverse.mpr hx)
+  have hload : (load s l n).2 = .notfound := by
+    have := C12_load s l n ha; simp only [step] at this; rw [this, h]; rfl
+  have hl1 : a < (load s l n).1.es.length := by
+    have := step_length s (.load l n); simp only [step] at this; rw [this]; exact hlen
+  have hps : (load s l n).1.ps = s.ps := by have := step_ps s (.load l n); simpa only [step] using this
+  have hown : bound (load s l n).1 a (canon n) = none := by rw [load_bound]; exact hall a hmem
+  obtain ⟨d1, d2, d3⟩ := define_unbound (load s l n).1 a n v hl1 hown
+  have hrun : run s [.load l n, .define a n v] =
+      ((define (load s l n).1 a n v).1, [(load s l n).2, (define (load s l n).1 a n v).2]) := rfl
+  have hres : resolve (define (load s l n).1 a n v).1 l (canon n) = some v := by
+    unfold resolve
+    have hps2 : (define (load s l n).1 a n v).1.ps = s.ps := by
+      have := step_ps (load s l n).1 (.define a n v); simp only [step] at this; rw [this, hps]
+    rw [hps2]
+    apply findSome?_unique
+    · intro x hx
+      by_cases hxa : x = a
+      · subst hxa; exact Or.inr d2
+      · left
+        rw [d3 x (canon n) (Or.inl hxa), load_bound]
+        exact hall x (List.mem_reverse.mp hx)
+    · exact ⟨a, List.mem_reverse.mpr hmem, d2⟩
+  rw [hrun]
+  refine ⟨by simp only [hload, d1], hres, ?_⟩
+  rw [C12_load _ l n ha, hres]; rfl
+
+/-- `ResolveResolvables` is the sequence of definitions of the declared types, in order of declaration, in the loader of
+    the context; the first one that is rejected ends it with that reported error -/
+theorem C12_rr_loop (tss : List (Option TypeSet)) (dps : List (Option Mods)) (s : Sys) (l : Nat) (n : Name) (v : V)
+    (r : List (Name × V)) :
+    rrLoop tss dps s l [] = (s, .ok) ∧
+    rrLoop tss dps s l ((n, v) :: r) =
+      if (stepX tss dps s (.define l n v)).2 = .ok then rrLoop tss dps (stepX tss dps s (.define l n v)).1 l r
+      else stepX tss dps s (.define l n v) := ⟨rfl, rrLoop_cons tss dps s l n v r⟩
+
+/-- when it returns normally every declared type is bound in that loader to the value declared -/
+theorem C12_rr_ok (tss : List (Option TypeSet)) (dps : List (Option Mods)) (q : SysQ) (l : Nat)
+    (ht : tsOf tss l = none) (hl : l < q.sys.es.length) (h : (stepQ tss dps q (.rr l)).2 = .ok) :
+    ∀ nv ∈ q.queue, bound (stepQ tss dps q (.rr l)).1.sys l (canon nv.1) = some nv.2 :=
+  rrLoop_ok_bound tss dps q.sys l q.queue ht hl h
+
+/-- declaring changes no loader; resolving leaves no declaration behind — accepted or not -/
+theorem C12_rr_queue (tss : List (Option TypeSet)) (dps : List (Option Mods)) (q : SysQ) (l : Nat) (n : Name) (v : V) :
+    (stepQ tss dps q (.reg n v)).1.sys = q.sys ∧ (stepQ tss dps q (.reg n v)).1.queue = q.queue ++ [(n, v)] ∧
+    (stepQ tss dps q (.rr l)).1.queue = [] := ⟨rfl, rfl, rfl⟩
+
+/-- write-once holds at the global level: no declaration, resolution or operation changes or removes a binding -/
+theorem C12_rr_writeonce (tss : List (Option TypeSet)) (dps : List (Option Mods)) (q : SysQ) (op : OpQ) (l : Nat) (k : Key)
+    (v : V) (h : bound q.sys l k = some v) : bound (stepQ tss dps q op).1.sys l k = some v := by
+  cases op with
+  | op o => exact bound_stepX_mono tss dps q.sys o l k v h
+  | reg _ _ => exact h
+  | rr l' => exact bound_rrLoop_mono tss dps q.sys l' q.queue l k v h
+
+theorem C12_rr_writeonce_run (tss : List (Option TypeSet)) (dps : List (Option Mods)) (q : SysQ) (ops : List OpQ) (l : Nat)
+    (k : Key) (v : V) (h : bound q.sys l k = some v) : bound (runQ tss dps q ops).1.sys l k = some v := by
+  induction ops generalizing q with
+  | nil => exact h
+  | cons op ops ih => exact ih _ (C12_rr_writeonce tss dps q op l k v h)
+
+/-- on a hierarchy of plain loaders the operations are the ones of `LoaderSeq` -/
+theorem C12_rr_plain (tss : List (Option TypeSet)) (dps : List (Option Mods)) (q : SysQ) (o : Op)
+    (ht : tsOf tss o.loader = none) (hd : ∀ a ∈ chain q.sys.ps o.loader, dps.getD a none = none) :
+    (stepQ tss dps q (.op o)).1.sys = (step q.sys o).1 ∧ (stepQ tss dps q (.op o)).2 = (step q.sys o).2 ∧
+    (stepQ tss dps q (.op o)).1.queue = q.queue := by
+  simp only [stepQ, stepX_plain tss dps q.sys o ht hd, and_self]
+
+/-! #### non-vacuity: static loader 0 ← 1 ← 2 -/
+
+def nc : Name := ⟨runtimeAuthority, "type", "c"⟩
+def stPs : List (Option Nat) := [none, some 0, some 1]
+def q0 : SysQ := { sys := Sys.init stPs, queue := [] }
+-- C12_define_ancestor_after_miss: the miss through 2, then the definition at the static level
+example : resolve (Sys.init stPs) 2 (canon na) = none ∧ 0 ∈ chain (Sys.init stPs).ps 2 ∧
+    (run (Sys.init stPs) [.load 2 na, .define 0 nA (.ty 1), .load 2 na, .get 2 na]).2 =
+      [.notfound, .ok, .found (.ty 1), .entry (some none)] := by decide +kernel
+-- C12_rr_ok / C12_rr_queue: "during init": two declarations resolved into the static loader, seen from below
+example : (runQ [] [] q0 [.reg na (.al "a" 1), .reg nb (.al "b" 2), .rr 0, .op (.load 2 nb), .op (.discover 2 fun _ => true)]).2 =
+    [.ok, .ok, .ok, .found (.al "b" 2), .keys [canon na, canon nb]] ∧ tsOf [] 0 = none := by decide +kernel
+/-- a rejected declaration ends `ResolveResolvables`: the declarations behind it are lost — not defined, not queued any more -/
+theorem C12_rr_drops_rest :
+    (runQ [] [] q0 [.op (.define 1 na (.ty 1)), .reg nb (.al "b" 1), .reg nA (.al "A" 2), .reg nc (.al "c" 3), .rr 1,
+      .op (.load 1 nb), .op (.load 1 nc), .rr 1, .op (.load 1 nc)]).2 =
+    [.ok, .ok, .ok, .ok, .reported "PCORE_ATTEMPT_TO_REDEFINE_TYPE", .found (.al "b" 1), .notfound, .ok, .notfound] := by
+  decide +kernel
 
 /-! ### the defects that were repaired, as witnesses on the pre-fix definitions -/
 
